@@ -112,6 +112,18 @@ def fleet_mid(iat1=(2, 2, 2, 2, 2, 2, 2, 2), iat2=(2, 2, 2, 2, 2, 2, 2, 2), wc=2
                       _e("buffer", 3, 4, cap=2)]}
 
 
+def chain(count=3, pd=(4,), cap=2, iat=4, blocking=True, sblocking=True, wc=1, bdelay=0, T=240):
+    """source -> buffer -> machine x count (buffers in between) -> sink, built by constructs/chain.py"""
+    nodes = [_n("source", blocking=sblocking, iat={"const": iat})]
+    for k in range(count):
+        nodes.append(_n("machine", wc=wc, pd={"const": pd[k % len(pd)]}, blocking=blocking))
+    nodes.append(_n("sink"))
+    edges = [_e("buffer", i, i + 1, cap=cap, delay=bdelay) for i in range(count + 1)]
+    return {"Q": Q, "T": T, "family": "constructs/chain", "expect": "valid", "drains": False, "nodes": nodes, "edges": edges,
+            "via": "chain", "chain": {"count": count, "pd": list(pd), "cap": cap, "iat": iat, "blocking": blocking,
+                                      "sblocking": sblocking, "wc": wc, "bdelay": bdelay}}
+
+
 def conveyor_line(etype="conveyor", acc=1, cap=3, slot=4, iat=(6, 6, 6), pd=(4,), T=160, sink_direct=False, sb=True):
     if sink_direct:
         return {"Q": Q, "T": T, "family": "S-conv-K", "expect": "valid", "drains": True,
@@ -227,6 +239,10 @@ def families(tier):
         C.append(conveyor_line(etype, acc, sink_direct=True))
         C.append(conveyor_line(etype, acc, iat=(1, 1, 1, 1, 1), pd=(12,)))
         C.append(conveyor_line(etype, acc, sb=False))
+    for count, pd, cap, iat, blocking, sblocking, wc, bdelay in [(3, (4,), 2, 4, True, True, 1, 0), (4, (2, 6, 3), 1, 2, True, True, 1, 0),
+                                                                 (3, (5,), 1, 1, False, False, 2, 2), (2, (0,), 1, 1, True, False, 1, 4),
+                                                                 (5, (3, 1), 2, 2, True, True, 2, 1)]:
+        C.append(chain(count, pd, cap, iat, blocking, sblocking, wc, bdelay))
     # the scenarios of the repository's own tests (tests/test_machine.py), shorter horizon: their histories are free,
     # realistic inputs; their assertions are irrelevant here
     for iat, pd, wc, c1, c2, d1, d2 in [(4, 4, 1, 4, 1, 0, 0), (1, 4, 1, 4, 1, 0, 0), (8, 12, 1, 4, 1, 0, 0), (4, 4, 5, 4, 1, 0, 0),
